@@ -17,7 +17,8 @@ from sim.minimise import shrink_history
 
 PROP = 'C20'
 POOL_CLASSES = ['no-hit', 'single-hit', 'sparse', 'vv', 'many-sets', 'many-sets', 'msa-crop',
-                'demo-like', 'split', 'merge', 'multi-hit', 'two-far', 'rng-sensitive']
+                'demo-like', 'split', 'merge', 'multi-hit', 'two-far', 'rng-sensitive',
+                'two-valued', 'high-close']
 UPTO = ['raw_data', 'slices', 'groups', 'layers']
 USER_RC = [
     ('axes.prop_cycle', "cycler('color', ['r', 'g', 'b'])"),
